@@ -86,20 +86,19 @@ def loadSpoc (v4 v6 raw : Config) : Except String Config :=
 
 /-! ### Services -/
 
-/-- `addNewServices`: calls and the ids of device services marked `needed`. -/
-def planServices (aS bS : List Service) : List Call × List String :=
-  let rec go (bs : List Service) (seen needed : List String) (acc : List Call) : List Call × List String :=
-    match bs with
-    | [] => (acc.reverse, needed)
-    | sb :: rest =>
-      if seen.contains sb.id then go rest seen needed acc
-      else
-        match findService aS.reverse sb.id with
-        | some sa =>
-          if sa.defn == sb.defn then go rest (sb.id :: seen) (sb.id :: needed) acc
-          else go rest (sb.id :: seen) (sb.id :: needed) (.patchService sb.id sb.defn :: acc)
-        | none => go rest (sb.id :: seen) needed (.putService sb.id sb.defn :: acc)
-  go bS [] [] []
+/-- `addNewServices`: calls and the ids of device services marked `needed`; `seen` are the target
+ids already handled (duplicates from the IPv4 and IPv6 files are skipped). -/
+def planSvc (aS : List Service) : List Service → List String → List Call × List String
+  | [], _ => ([], [])
+  | sb :: rest, seen =>
+    if seen.contains sb.id then planSvc aS rest seen
+    else
+      let (cs, needed) := planSvc aS rest (sb.id :: seen)
+      match findService aS.reverse sb.id with
+      | some sa => (if sa.defn == sb.defn then cs else .patchService sb.id sb.defn :: cs, sb.id :: needed)
+      | none => (.putService sb.id sb.defn :: cs, needed)
+
+def planServices (aS bS : List Service) : List Call × List String := planSvc aS bS []
 
 /-! ### Unique names -/
 
@@ -295,7 +294,7 @@ inductive Item
   | eq (ra rb : Rule)
   deriving Repr, Inhabited
 
-def compactRule (r : Rule) : Rule := { r with attrs := { r.attrs with svcEntries := compactJSON r.attrs.svcEntries } }
+def compactRule (r : Rule) : Rule := { r with attrs := compactAttrs r.attrs }
 
 /-- Body of a rule call: `writeRule` blanks the id; marshalling compacts inline service entries. -/
 def ruleBody (r : Rule) (src dst : String) : Rule := { compactRule r with id := "", src := src, dst := dst }
@@ -335,16 +334,18 @@ def diffRules (ctx : Ctx) (st : PSt) (a : Policy) (b : Policy) : PSt × List Cal
     let rs := ctx.diff aS.length bS.length fun i j => ruleEqual ctx.gma ctx.gmb aS[i]! bS[j]!
     stepItems { ctx with pid := a.id } st (itemsOf rs aS bS)
 
+/-- The loop of `createPolicy`: adapt source and destination of every rule. -/
+def adaptRules (ctx : Ctx) : PSt → List Rule → PSt × List Call × List Rule
+  | st, [] => (st, [], [])
+  | st, r :: rest =>
+    let (st1, src, c1) := adaptGroup ctx st r.src
+    let (st2, dst, c2) := adaptGroup ctx st1 r.dst
+    let (st3, cs, rs) := adaptRules ctx st2 rest
+    (st3, c1 ++ c2 ++ cs, { compactRule r with src := src, dst := dst } :: rs)
+
 /-- `createPolicy`: adapt every rule, then PUT the whole policy. -/
 def createPolicy (ctx : Ctx) (st : PSt) (b : Policy) : PSt × List Call :=
-  let rec go (rs : List Rule) (st : PSt) (calls : List Call) (done : List Rule) : PSt × List Call × List Rule :=
-    match rs with
-    | [] => (st, calls, done.reverse)
-    | r :: rest =>
-      let (st1, src, c1) := adaptGroup ctx st r.src
-      let (st2, dst, c2) := adaptGroup ctx st1 r.dst
-      go rest st2 (calls ++ c1 ++ c2) ({ compactRule r with src := src, dst := dst } :: done)
-  let (st', calls, rules) := go b.rules st [] []
+  let (st', calls, rules) := adaptRules ctx st b.rules
   (st', calls ++ [.putPolicy b.id rules])
 
 def findPolicyLast (ps : List Policy) (id : String) : Option Policy := findPolicy ps.reverse id
@@ -357,34 +358,45 @@ structure Plan where
   nod : List (String × String) := []
   deriving Repr, Inhabited
 
-/-- `diffConfig a b` on the loaded device configuration and the merged Netspoc configuration. -/
-def plan (diff : Diff) (A B : Config) : Plan :=
+/-- The loop of `diffConfig` over the device policies. -/
+def overA (ctx : Ctx) (B : Config) : List Policy → PSt → PSt × List Call
+  | [], st => (st, [])
+  | p1 :: rest, st =>
+    match findPolicyLast B.policies p1.id with
+    | none =>
+      let (st', c) := overA ctx B rest st
+      (st', .deletePolicy p1.id :: c)
+    | some p2 =>
+      let (st1, c1) := diffRules ctx st p1 p2
+      let (st2, c2) := overA ctx B rest st1
+      (st2, c1 ++ c2)
+
+/-- The loop of `diffConfig` over the target policies the device does not have. -/
+def overB (ctx : Ctx) (A : Config) : List Policy → PSt → PSt × List Call
+  | [], st => (st, [])
+  | p2 :: rest, st =>
+    if A.policies.any (·.id == p2.id) then overB ctx A rest st
+    else
+      let (st1, c1) := createPolicy ctx st p2
+      let (st2, c2) := overB ctx A rest st1
+      (st2, c1 ++ c2)
+
+/-- The context `diffConfig` works in: device groups with sorted addresses, target groups after
+`genUniqGroupNames` keyed by their original ids (last definition first). -/
+def mkCtx (diff : Diff) (A B : Config) : Option Ctx :=
   let aG := sortGroups A.groups
   let bG0 := sortGroups B.groups
+  (genUniqGroups (aG.map (·.id)) bG0).map fun bG =>
+    { diff := diff, aGroups := aG, bmap := ((bG0.map (·.id)).zip bG).reverse }
+
+/-- `diffConfig a b` on the loaded device configuration and the merged Netspoc configuration. -/
+def plan (diff : Diff) (A B : Config) : Plan :=
   let (svcCalls, neededSvc) := planServices A.services B.services
-  match genUniqGroups (aG.map (·.id)) bG0 with
+  match mkCtx diff A B with
   | none => { abort := some "model: no fresh group id" }
-  | some bG =>
-    let ctx : Ctx := { diff := diff, aGroups := aG, bmap := ((bG0.map (·.id)).zip bG).reverse }
-    let rec overA (ps : List Policy) (st : PSt) (acc : List Call) : PSt × List Call :=
-      match ps with
-      | [] => (st, acc)
-      | p1 :: rest =>
-        match findPolicyLast B.policies p1.id with
-        | none => overA rest st (acc ++ [.deletePolicy p1.id])
-        | some p2 =>
-          let (st', c) := diffRules ctx st p1 p2
-          overA rest st' (acc ++ c)
-    let rec overB (ps : List Policy) (st : PSt) (acc : List Call) : PSt × List Call :=
-      match ps with
-      | [] => (st, acc)
-      | p2 :: rest =>
-        if A.policies.any (·.id == p2.id) then overB rest st acc
-        else
-          let (st', c) := createPolicy ctx st p2
-          overB rest st' (acc ++ c)
-    let (st1, c1) := overA A.policies {} []
-    let (st2, c2) := overB B.policies st1 []
+  | some ctx =>
+    let (st1, c1) := overA ctx B A.policies {}
+    let (st2, c2) := overB ctx A B.policies st1
     let delS := (A.services.filter (!neededSvc.contains ·.id)).map (Call.deleteService ·.id)
     let delG := (A.groups.filter (!st2.needed.contains ·.id)).map (Call.deleteGroup ·.id)
     { calls := svcCalls ++ c1 ++ c2 ++ delS ++ delG, abort := st2.abort, needed := st2.needed, nod := st2.nod }
